@@ -48,6 +48,7 @@ type c20Scenario struct {
 func applyOrder(o orderSpec) {
 	verifmap.Native = false
 	verifmap.Hits = map[int]int{}
+	verifmap.Multi = map[int]int{}
 	switch o.Kind {
 	case "canonical":
 		verifmap.Order = nil
@@ -282,6 +283,13 @@ func execC20(body json.RawMessage) *kernel.Result {
 			siteHits[s] = true
 			res.Sig(fmt.Sprintf("site%d|%s", s, o.Kind))
 		}
+		// reach: which range sites were walked over two or more keys under a driven order (the "fault" of this engine)
+		for s, n := range verifmap.Multi {
+			if o.Kind != "canonical" && n > 0 {
+				res.Fault("order-driven@" + verifmap.Sites[s])
+			}
+		}
+		res.Probe(fmt.Sprintf("range-sites-behind-the-seam=%d", len(verifmap.Sites)))
 		if out.Budget {
 			res.Unbounded++
 			applyOrder(orderSpec{Kind: "native"})
@@ -405,6 +413,9 @@ var targetedC20 = []struct {
 	{"json-wide", false, []string{"(def h (hash k1:1 k2:2 k3:3 k4:4 k5:5 k6:6 k7:7 k8:8 k9:9 k10:10 k11:11 k12:12))", "(str (unjson (json h)))", "(keys (unjson (json h)))"}},
 	{"json-foreign", false, []string{`(def fj (unjson (raw "{\"kiwi\":1, \"apple\":2, \"mango\":3, \"fig\":4, \"lime\":5, \"pear\":6, \"plum\":7, \"date\":8, \"yuzu\":9, \"nut\":10, \"oat\":11}")))`, "(str fj)", "(keys fj)", "(json fj)", "(hpair fj 0)"}},
 	{"json-foreign-nested", false, []string{`(def fn2 (unjson (raw "{\"outer\":{\"k1\":1,\"k2\":2,\"k3\":3,\"k4\":4,\"k5\":5,\"k6\":6,\"k7\":7,\"k8\":8,\"k9\":9,\"k10\":10}, \"list\":[{\"a\":1,\"b\":2,\"c\":3,\"d\":4,\"e\":5,\"f\":6,\"g\":7,\"h\":8,\"i\":9}], \"z\":0, \"y\":1, \"x\":2, \"w\":3, \"v\":4, \"u\":5, \"t\":6}")))`, "(str fn2)", "(str (unmsgpack (msgpack fn2)))"}},
+	// member names that tie under a coarser order than their spelling (numeric value, case, surrounding blanks, length)
+	{"json-foreign-twins", false, []string{`(def ft (unjson (raw "{\"1\":1, \"01\":2, \"+1\":3, \"001\":4, \"1.0\":5, \"ab\":6, \"AB\":7, \"Ab\":8, \"aB\":9, \" a\":10, \"a \":11, \"a\":12, \"-0\":13, \"0\":14, \"00\":15}")))`, "(str ft)", "(keys ft)", "(json ft)", "(hpair ft 0)", "(str (unmsgpack (msgpack ft)))"}},
+	{"msgpack-foreign-twins", false, []string{`(def fu (unmsgpack (msgpack (unjson (raw "{\"7\":1, \"07\":2, \"+7\":3, \"007\":4, \"x\":5, \"X\":6, \"7 \":8, \" 7\":9}")))))`, "(str fu)", "(keys fu)", "(json fu)"}},
 	{"msgpack-foreign", false, []string{`(def fm (unmsgpack (msgpack (unjson (raw "{\"q1\":1,\"q2\":2,\"q3\":3,\"q4\":4,\"q5\":5,\"q6\":6,\"q7\":7,\"q8\":8,\"q9\":9,\"q10\":10}")))))`, "(str fm)", "(keys fm)"}},
 	{"hash-wide", false, []string{"(def hw (hash))", "(for [(def i 0) (< i 20) (def i (+ i 1))] (hset hw (str2sym (concat \"k\" (str i))) i))", "(str hw)", "(keys hw)", "(json hw)", "(str (unjson (json hw)))"}},
 	{"macro-names", false, []string{"(defmac sw [a b] ^(let [tmp ~a] (set ~a ~b) (set ~b tmp)))", "(def x 1) (def y 2)", "(sw x y)", "(str (list x y))", "(str (macexpand (sw x y)))"}},
